@@ -1,24 +1,203 @@
-"""C08 — blocks / zero_pad / Stream.blocks.  Tie: exhaustive small + random large."""
+"""C08 — blocks / zero_pad / Stream.blocks.
+
+Tie.  Besides the exhaustive (len x size x hop) grid on finished list inputs, the cases are
+HISTORIES around one generator, each compared with the Lean model and the Lean spec of that history:
+
+  trace     observing source that ENDS or FAILS (raises a custom exception) after j items, j = every
+            position: the blocks handed out before the failure must be exactly the complete blocks of
+            the j delivered items, block k must come out when exactly k*hop+size items were pulled
+            (no read-ahead), no padded block after a failure, the very exception object propagates
+            (Lean: blocksTrace; theorems blocks_prefix, reads_closed, trace_fail, trace_stop).
+  mut       the caller edits the yielded deque in place between two yields (item assignment, rotate,
+            reverse): documented ("changing the returned contents will keep the new changed value in
+            the next yielded container" when hop < size); nothing shows when hop >= size
+            (Lean: blocksMut / mutSpec; theorems blocks_mut_eq_spec, mut_next_block, ...).
+  live      live source whose items depend on what the caller did after each block (ControlStream
+            through Stream.blocks, a generator reading a cell): the blocks are those of the sequence
+            item i = value in force when nFull(i) blocks were out (Lean: blocksLive; blocks_live).
+  blocks    + routes: Stream subclasses overriding __iter__ (gain-on-iterate, the ChangeableStream idiom
+            of examples/keyboard.py followed by limit / append after j blocks), thub (two branches
+            consumed in lock-step), tuple / deque / generator inputs, int-like size / hop types.
+  zero_pad  observing / failing sources, int-like left / right, 0 and large pads.
+  conc      several generators alive at once (round robin / nested / in sequence), sharing the argument
+            objects: each must be the model of its own case taken alone; arguments unchanged.
+  hist      calls of any of the above made one after the other in one FRESH process, mostly with ==-equal
+            parameters of different types (2, Int(2), 2.0, Fraction(2), True) or the same size with another
+            hop: each call is compared with the Lean model/spec of that call taken alone (the model is a pure
+            function of the arguments).
+  big       size / hop around 63..65, 127..129, 1023..1025, 4095..4097 with short and long inputs.
+
+Reproducibility.  `conc` and `hist` cases always run in a fresh fork of a child that was forked before this
+process made its first call into the library; a plain case that disagrees is run again alone that way: if it
+agrees alone, the disagreement depends on earlier calls of this process, it is reported with the signature
+`state-between-calls` and the shrinker searches the earlier calls it needs (binary search on the prefix of
+the process' call history, then removal of chunks) and reports the explicit `hist` case.
+
+Items travel as TAGGED JSON (1, 1.0 and True are different items; `{"o": k}` = k-th source object,
+checked by identity) so that a change that copies or casts the items is seen.
+"""
+import collections
+import itertools as it
+import json
+import warnings
+from fractions import Fraction
+
 import common
 from common import err_kind
 
 ID = "C08"
-RULE = ("exhaustive (len x size x hop x route) grid plus random larger cases; a case is non-trivial "
+RULE = ("exhaustive (len x size x hop x route) grid on finished inputs, exhaustive (len x size x hop x ending) "
+        "grid of observing sources that end / fail at every position, small exhaustive grids of caller-edit and "
+        "live-source histories, random larger cases of every entry incl. Stream-subclass / thub / int-like-parameter "
+        "routes, interleaved generators, call histories in a fresh process, long runs (thousands of blocks) and "
+        "sizes/hops around powers of two up to 4097; a case is non-trivial "
         "when the impl yields at least one block (or zero_pad has non-empty output); distinct = distinct JSON case")
-TRUSTED = ["hand-written Lean model ALV/Model/C08.lean of lazy_misc.blocks/zero_pad (modelled, not verified: deque(maxlen), generator protocol)"]
-ASSUMPTIONS = ["size >= 1 and hop >= 1 (the property's quantifier); size=None / hop=0 are outside it"]
+TRUSTED = [
+    "hand-written Lean model ALV/Model/C08.lean + C08Hist.lean of lazy_misc.blocks/zero_pad (modelled, not verified: "
+    "deque(maxlen), generator protocol: a source exception passes through the generator frame unchanged)",
+    "independence of a call from earlier / concurrent calls holds for the model by construction (pure functions of "
+    "the arguments); the `conc` cases check it on the real code",
+    "caller edits are modelled for length-preserving operations only (item assignment, rotate, reverse): the "
+    "docstring speaks of changing the returned CONTENTS; append/pop on the yielded deque are outside the property",
+    "Stream subclasses: `Stream.blocks(s)` is modelled as `blocks(iter(s))`; the sequence iter(s) yields for a "
+    "given history is computed by the harness from the no-read-ahead clause (block k after k*hop+size items)",
+]
+ASSUMPTIONS = [
+    "size >= 1 and hop >= 1 (the property's quantifier); size=None / hop=0 are outside it",
+    "size/hop of type int, bool or an int subclass are inside the quantifier; an int-valued float / Fraction hop is "
+    "outside (xrange(idx, size) refuses it when a padded block is due): the check then only demands that every "
+    "complete block is right and that the refusal is a TypeError",
+]
+
+MANIFEST = {
+    "text": "Lean 4 theorems about an executable, code-shaped model of blocks / zero_pad (both loops, idx bookkeeping, padded "
+            "tail) for all lengths / sizes / hops / pad values / item types, and about the generator's histories: every "
+            "prefix of the input (sources that fail or end anywhere), the number of items pulled when each block is handed "
+            "out, a caller that edits the yielded deque in place, live sources that follow the caller; tied to /repo by a "
+            "differential run (impl vs model vs spec) on every check",
+    "note": "deque(maxlen), the generator protocol (a source exception passes through the frame unchanged) and Stream.blocks = "
+            "blocks(iter(s)) are modelled, not verified; caller edits are modelled for length-preserving operations only; an "
+            "int-valued float / Fraction hop is outside the quantifier (only 'right blocks or TypeError' is demanded)",
+    "technique": "Lean 4 machine-checked proof over an executable model + differential correspondence with observing / failing "
+                 "sources, caller-edit and live-source histories, Stream subclasses overriding __iter__, interleaved generators "
+                 "and call histories run in pristine forked processes (state-between-calls is reported with the explicit history)",
+}
+
+PAD_POOL = [None, 0, "pad", -1, {"f": "0.0"}, {"o": -1}]
+EXC_POOL = ["DeviceError", "ValueError", "KeyError", "ZeroDivisionError"]
 
 
-def _items(rng, n, hetero):
-    if not hetero:
+class DeviceError(Exception):
+    pass
+
+
+class Obj(object):
+    """source object tracked by identity"""
+    __slots__ = ("k",)
+
+    def __init__(self, k):
+        self.k = k
+
+    def __repr__(self):
+        return "Obj(%d)" % self.k
+
+
+class Int(int):
+    """int subclass (int-like parameter)"""
+
+
+# ----------------------------------------------------------------------------
+# tagged items
+# ----------------------------------------------------------------------------
+def untag(j, reg=None):
+    if isinstance(j, dict):
+        if "b" in j:
+            return bool(j["b"])
+        if "f" in j:
+            return float(j["f"])
+        if "l" in j:
+            return [untag(e, reg) for e in j["l"]]
+        if "t" in j:
+            return tuple(untag(e, reg) for e in j["t"])
+        if "o" in j:
+            k = j["o"]
+            if reg is None:
+                return Obj(k)
+            if k not in reg:
+                reg[k] = Obj(k)
+            return reg[k]
+        raise ValueError("untag %r" % (j,))
+    return j
+
+
+def tag(x, reg=None):
+    if x is None or isinstance(x, str):
+        return x
+    if isinstance(x, bool):
+        return {"b": x}
+    if type(x) is int:
+        return x
+    if isinstance(x, float):
+        return {"f": repr(x)}
+    if type(x) is list:
+        return {"l": [tag(e, reg) for e in x]}
+    if type(x) is tuple:
+        return {"t": [tag(e, reg) for e in x]}
+    if isinstance(x, Obj):
+        if reg is not None and reg.get(x.k) is x:
+            return {"o": x.k}
+        return {"o": x.k, "copy": 1}
+    return {"?": type(x).__name__, "r": repr(x)[:60]}
+
+
+def tagl(xs, reg=None):
+    return [tag(x, reg) for x in xs]
+
+
+def _items(rng, n, flavour):
+    if flavour == "int":
         return list(range(100, 100 + n))
-    pool = [0, 1, -3, "a", "bb", None, True, [1, 2], 7]
+    if flavour == "ident":
+        return [{"o": i} for i in range(n)]
+    pool = [0, 1, -3, "a", "bb", None, {"b": True}, {"b": False}, {"l": [1, 2]}, 7, {"f": "1.0"}, {"f": "0.0"},
+            {"t": [1]}, {"f": "2.5"}]
     return [rng.choice(pool) for _ in range(n)]
+
+
+def nfull(size, hop, n):
+    return 0 if n < size else (n - size) // hop + 1
+
+
+def pulled(size, hop, j):
+    """items pulled when j blocks have been handed out"""
+    return 0 if j == 0 else (j - 1) * hop + size
+
+
+def case_xs(c):
+    return c["xs"] if "xs" in c else list(range(c["n"]))
+
+
+def case_len(c):
+    return len(c["xs"]) if "xs" in c else c["n"]
+
+
+# ----------------------------------------------------------------------------
+# generation
+# ----------------------------------------------------------------------------
+BIG = [(63, 64, 300), (64, 64, 64 * 5), (65, 64, 400), (64, 63, 64 + 63 * 4 + 1), (127, 128, 1000), (128, 1, 140),
+       (129, 128, 129 + 128 * 3 - 1), (1023, 1024, 5000), (1024, 1024, 4096), (1025, 3, 1040), (4095, 4096, 12290),
+       (4096, 4096, 8192), (4097, 4096, 12290), (4096, 4097, 3 * 4096 + 5), (4097, 1, 4105), (1, 4096, 20000),
+       (3, 4097, 20000), (4096, 5000, 30), (5000, 1, 17), (2048, 1000, 9000), (1000, 2048, 9000), (7, 1, 3000)]
+
+
+# long runs: thousands of blocks from one generator (small sizes: cheap), always in both tiers
+LONG = [(7, 1, 3000), (2, 1, 5000), (3, 2, 4100), (1, 1, 4097), (5, 5, 10240), (4, 7, 9000), (16, 15, 20000)]
 
 
 def generate(rng, tier, scale=1):
     cases = []
-    if tier == "quick":
+    quick = tier == "quick"
+    if quick:
         L, S, H = 14, 7, 9
         nrand = 300 * scale
     else:
@@ -38,110 +217,1306 @@ def generate(rng, tier, scale=1):
                 for r in range(0, 4):
                     cases.append({"entry": "zero_pad", "left": l, "right": r, "zero": "z",
                                   "xs": list(range(n))})
+        # sources that end / fail at every position, observed
+        Lt, St, Ht = (10, 5, 7) if quick else (26, 9, 12)
+        for n in range(Lt + 1):
+            for size in range(1, St + 1):
+                for hop in range(1, Ht + 1):
+                    for ending in ("stop", "fail"):
+                        cases.append({"entry": "trace", "size": size, "hop": hop, "pad": "P",
+                                      "xs": list(range(n)), "ending": ending,
+                                      "route": ("func", "stream", "substream")[(n + size + hop) % 3],
+                                      "exc": EXC_POOL[(n + hop) % len(EXC_POOL)]})
+        # caller edits and live sources, small grid
+        Lm, Sm, Hm = (9, 4, 5) if quick else (18, 6, 8)
+        for n in range(Lm + 1):
+            for size in range(1, Sm + 1):
+                for hop in range(1, Hm + 1):
+                    cases.append({"entry": "mut", "size": size, "hop": hop, "pad": "P", "xs": list(range(n)),
+                                  "edits": _edits(rng, size, nfull(size, hop, n) + 1, dense=True),
+                                  "route": ("func", "stream")[(n + hop) % 2]})
+                    cases.append({"entry": "live", "size": size, "hop": hop, "pad": "P", "n": n,
+                                  "vals": ["v%d" % i for i in range(nfull(size, hop, n) + 2)],
+                                  "kind": ("control", "cell", "cellstream")[(n + size) % 3]})
+        Lr, Sr, Hr = (8, 3, 4) if quick else (14, 5, 7)
+        for n in range(Lr + 1):
+            for size in range(1, Sr + 1):
+                for hop in range(1, Hr + 1):
+                    base = {"entry": "blocks", "size": size, "hop": hop, "pad": "P", "xs": list(range(n))}
+                    cases.append(dict(base, route="gain", gain=10, xs=list(range(1, n + 1))))
+                    cases.append(dict(base, route="thub"))
+                    for j in range(nfull(size, hop, n) + 1):
+                        cases.append(dict(base, route="chg_limit", take=j))
+                        cases.append(dict(base, route="chg_append", take=j,
+                                          first=(pulled(size, hop, j), n)[(n + j) % 2]))
+        for n in range(0, 6):
+            for l in range(0, 4):
+                for r in range(0, 4):
+                    for ending in ("stop", "fail"):
+                        cases.append({"entry": "zero_pad", "left": l, "right": r, "zero": {"f": "0.0"},
+                                      "xs": list(range(n)), "ending": ending, "observe": True,
+                                      "ptype": ("int", "intsub", "bool")[(l + r + n) % 3]})
+        big = BIG if not quick else [BIG[i] for i in range(len(BIG)) if i % 2 == rng.randrange(2) or BIG[i][0] > 4000]
+        for size, hop, n in LONG + big:
+            for dn in ((0,) if quick else (-1, 0, 1)):
+                cases.append({"entry": "trace", "size": size, "hop": hop, "pad": None, "n": max(0, n + dn),
+                              "ending": rng.choice(["stop", "fail"]), "route": rng.choice(["func", "stream"]),
+                              "exc": "DeviceError"})
+        cases.append({"entry": "zero_pad", "left": 0, "right": 0, "zero": {"f": "0.0"}, "xs": [1, 2, 3], "defaults": "all"})
+        cases.append({"entry": "zero_pad", "left": 2, "right": 3, "zero": {"f": "0.0"}, "xs": [1, "a"], "defaults": "zero"})
+        # heterogeneous items with sizes / hops in the thousands
+        for size, hop, n in [(1025, 1000, 3100), (2000, 3, 2010), (3, 2049, 4200)]:
+            cases.append({"entry": "blocks", "size": size, "hop": hop, "pad": rng.choice(PAD_POOL),
+                          "xs": _items(rng, n, rng.choice(["hetero", "ident"])), "route": rng.choice(["func", "stream"])})
+        for l, r, n in [(0, 0, 0), (5000, 0, 3), (0, 5000, 3), (4096, 4097, 1000)]:
+            cases.append({"entry": "zero_pad", "left": l, "right": r, "zero": 0, "n": n,
+                          "ending": rng.choice(["stop", "fail"]), "observe": True, "ptype": "int"})
     for _ in range(nrand):
         size = rng.randint(1, 30)
         hop = rng.choice([1, size, size + 1, rng.randint(1, 40), max(1, size - 1), 2 * size])
         n = rng.choice([0, size - 1, size, size + 1, rng.randint(0, 120), size + 3 * hop, size + 3 * hop - 1])
         n = max(0, n)
         cases.append({"entry": "blocks", "size": size, "hop": hop,
-                      "pad": rng.choice([None, 0, "pad", -1]),
-                      "xs": _items(rng, n, rng.random() < 0.5),
+                      "pad": rng.choice(PAD_POOL),
+                      "xs": _items(rng, n, rng.choice(["int", "hetero", "ident"])),
                       "route": rng.choice(["func", "stream", "iter"])})
-    return cases
+    for _ in range((1500 if quick else 12000) * scale):
+        cases.append(_random_case(rng))
+    for _ in range((150 if quick else 1500) * scale):
+        cases.append(_random_hist(rng))
+    return [c for c in cases if valid(c)]
+
+
+def _shape(rng, smax=12):
+    size = rng.randint(1, smax)
+    hop = rng.choice([1, size, size + 1, rng.randint(1, smax + 6), max(1, size - 1), 2 * size])
+    n = max(0, rng.choice([0, size - 1, size, size + 1, rng.randint(0, 60), size + 3 * hop, size + 3 * hop - 1,
+                           size + 2 * hop + 1]))
+    return size, hop, n
+
+
+def _edits(rng, size, nblocks, dense=False):
+    eds = []
+    for _ in range(nblocks):
+        ops = []
+        for _ in range(rng.choice([1, 1, 2]) if dense else rng.choice([0, 1, 1, 2, 3])):
+            kind = rng.choice(["set", "set", "set", "rot", "rev"])
+            if kind == "set":
+                ops.append(["set", rng.randrange(size), rng.choice(["X", "Y", -7, None, {"f": "1.5"}])])
+            elif kind == "rot":
+                ops.append(["rot", rng.randint(-size - 1, size + 1)])
+            else:
+                ops.append(["rev"])
+        eds.append(ops)
+    return eds
+
+
+def _random_hist(rng):
+    """calls made one after the other in the same (fresh) process, mostly with ==-equal parameters of
+    different types or the same size with another hop: state kept between calls would show"""
+    size, hop, _n = _shape(rng, 8)
+    steps = []
+    for _ in range(rng.randint(2, 5)):
+        u = rng.random()
+        sh = (size, hop) if u < .5 else (size, _shape(rng, 8)[1]) if u < .75 else None
+        st = _random_case(rng, sh, ["trace", "mut", "live", "route", "ptype", "ptype", "plain", "plain", "zp"])
+        steps.append(st)
+    return {"entry": "hist", "steps": steps}
+
+
+def _random_case(rng, shape=None, kinds=None):
+    size, hop, n = _shape(rng)
+    if shape is not None:
+        size, hop = shape
+        n = max(0, rng.choice([0, size - 1, size, size + 1, rng.randint(0, 30), size + 2 * hop, size + 2 * hop - 1]))
+    pad = rng.choice(PAD_POOL)
+    kind = rng.choice(kinds or ["trace", "trace", "mut", "live", "route", "route", "route", "ptype", "zp", "conc",
+                                "hist", "hist"])
+    if kind == "hist":
+        return _random_hist(rng)
+    if kind == "plain":
+        return {"entry": "blocks", "size": size, "hop": hop, "pad": pad,
+                "xs": _items(rng, n, rng.choice(["int", "hetero", "ident"])),
+                "route": rng.choice(["func", "stream", "iter"])}
+    flavour = rng.choice(["int", "hetero", "ident"])
+    if kind == "trace":
+        return {"entry": "trace", "size": size, "hop": hop, "pad": pad, "xs": _items(rng, n, flavour),
+                "ending": rng.choice(["stop", "fail", "fail"]),
+                "route": rng.choice(["func", "stream", "substream", "chgstream"]),
+                "exc": rng.choice(EXC_POOL)}
+    if kind == "mut":
+        return {"entry": "mut", "size": size, "hop": hop, "pad": pad, "xs": _items(rng, n, flavour),
+                "edits": _edits(rng, size, nfull(size, hop, n) + 1), "route": rng.choice(["func", "stream"])}
+    if kind == "live":
+        nb = nfull(size, hop, n) + 2
+        return {"entry": "live", "size": size, "hop": hop, "pad": rng.choice([None, 0, "pad"]), "n": n,
+                "vals": [rng.choice(["a", "b", 3, -1, None]) if rng.random() < .3 else "v%d" % i
+                         for i in range(rng.randint(1, nb))],
+                "kind": rng.choice(["control", "cell", "cellstream"])}
+    if kind == "route":
+        route = rng.choice(["gain", "chg_limit", "chg_append", "chg_limit", "chg_append", "thub", "tuple", "deque",
+                            "genfunc", "substream", "chgstream", "thub1", "positional", "reentrant", "reentrant",
+                            "stream_hopnone", "defaultpad", "stream_defaultpad"])
+        c = {"entry": "blocks", "size": size, "hop": hop, "pad": pad, "route": route}
+        if route == "gain":
+            c["xs"] = [rng.randint(-9, 9) for _ in range(n)]
+            c["gain"] = rng.choice([10, -1, 3, 0])
+            c["pad"] = rng.choice([None, 0, "pad"])
+        else:
+            c["xs"] = _items(rng, n, flavour)
+        if route == "stream_hopnone" and hop != size:
+            c["route"] = route = "stream"
+        if route in ("defaultpad", "stream_defaultpad"):
+            c["pad"] = {"f": "0.0"}       # the documented default padval=0.
+        if route in ("chg_limit", "chg_append"):
+            c["take"] = rng.randint(0, nfull(size, hop, n))
+            if route == "chg_append":
+                lo = pulled(size, hop, c["take"])
+                c["first"] = rng.choice([lo, lo, rng.randint(lo, max(lo, n))])
+        return c
+    if kind == "ptype":
+        pt = rng.choice(["intsub", "intsub", "bool", "hopfloat", "hopfrac", "sizefloat"])
+        if pt == "bool" and (size, hop) != (1, 1):
+            pt = "intsub"
+        return {"entry": "blocks", "size": size, "hop": hop, "pad": pad, "xs": _items(rng, n, flavour),
+                "route": rng.choice(["func", "stream"]), "ptype": pt}
+    if kind == "zp":
+        return {"entry": "zero_pad", "left": rng.choice([0, 0, 1, 2, rng.randint(0, 40)]),
+                "right": rng.choice([0, 0, 1, 2, rng.randint(0, 40)]),
+                "zero": rng.choice(PAD_POOL), "xs": _items(rng, rng.randint(0, 12), flavour),
+                "ending": rng.choice(["stop", "fail"]), "observe": True,
+                "ptype": rng.choice(["int", "intsub", "bool", "float"]),
+                "route": rng.choice(["iter", "list", "stream"])}
+    # conc
+    subs = []
+    shared = _items(rng, n, flavour)
+    for _ in range(rng.randint(2, 4)):
+        s2, h2, n2 = _shape(rng, 6)
+        if rng.random() < .5:
+            s2, h2 = size, hop          # equal parameters: a cache keyed by (size, hop) would collide
+        share = rng.random() < .6
+        subs.append({"entry": "blocks", "size": s2, "hop": h2, "pad": pad,
+                     "xs": shared if share else _items(rng, n2, flavour), "share": share,
+                     "route": rng.choice(["func", "stream", "iter"]),
+                     "ptype": rng.choice(["int", "int", "intsub", "hopfloat"])})
+    return {"entry": "conc", "subs": subs, "order": rng.choice(["rr", "rr", "seq", "nest"])}
+
+
+def valid(c):
+    e = c["entry"]
+    if e == "conc":
+        return len(c["subs"]) >= 1 and all(valid(s) for s in c["subs"])
+    if e == "hist":
+        return len(c["steps"]) >= 1 and all(s["entry"] not in ("hist", "conc") and valid(s) for s in c["steps"])
+    if e == "zero_pad":
+        if c.get("ptype") == "bool" and (c["left"] > 1 or c["right"] > 1):
+            return False
+        if c.get("defaults") and (c["zero"] != {"f": "0.0"} or
+                                  (c["defaults"] == "all" and (c["left"] or c["right"]))):
+            return False
+        return c["left"] >= 0 and c["right"] >= 0
+    if c["size"] < 1 or c["hop"] < 1:
+        return False
+    n = case_len(c)
+    if e == "blocks":
+        r = c.get("route", "func")
+        if r in ("hopnone", "stream_hopnone") and c["hop"] != c["size"]:
+            return False
+        if r in ("defaultpad", "stream_defaultpad") and c["pad"] != {"f": "0.0"}:
+            return False
+        if c.get("ptype") == "bool" and (c["size"] != 1 or c["hop"] != 1):
+            return False
+        if r in ("chg_limit", "chg_append"):
+            j = c.get("take", 0)
+            if j < 0 or j > nfull(c["size"], c["hop"], n):
+                return False
+            if r == "chg_append" and not (pulled(c["size"], c["hop"], j) <= c.get("first", n) <= n):
+                return False
+        if r == "gain" and not all(type(x) is int for x in c["xs"]):
+            return False
+    if e == "mut":
+        for ops in c["edits"]:
+            for op in ops:
+                if op[0] == "set" and not (0 <= op[1] < c["size"]):
+                    return False
+    if e == "live" and not c["vals"]:
+        return False
+    return True
+
+
+# ----------------------------------------------------------------------------
+# the real code
+# ----------------------------------------------------------------------------
+def _classes():
+    from audiolazy import Stream
+
+    class SubStream(Stream):
+        """Stream subclass that does not touch __iter__"""
+
+    class ChangeableStream(Stream):
+        """examples/keyboard.py idiom: the iterator keeps taking samples from the Stream
+        instead of being the iterator of the internal data itself"""
+        def __iter__(self):
+            while True:
+                try:
+                    el = next(self._data)
+                except StopIteration:
+                    return
+                yield el
+
+    class GainStream(Stream):
+        def __init__(self, data, gain):
+            super(GainStream, self).__init__(data)
+            self.gain = gain
+
+        def __iter__(self):
+            return (el * self.gain for el in self._data)
+
+    return SubStream, ChangeableStream, GainStream
+
+
+def _param(v, pt, which):
+    if pt == "intsub":
+        return Int(v)
+    if pt == "bool":
+        return bool(v)
+    if pt == "hopfloat" and which == "hop":
+        return float(v)
+    if pt == "hopfrac" and which == "hop":
+        return Fraction(v)
+    if pt == "sizefloat" and which == "size":
+        return float(v)
+    if pt == "float":
+        return float(v)
+    return v
+
+
+def _make_exc(name):
+    return {"DeviceError": DeviceError, "ValueError": ValueError, "KeyError": KeyError,
+            "ZeroDivisionError": ZeroDivisionError}[name]("source failed")
+
+
+def _source(items, ending, log, exc):
+    for i, x in enumerate(items):
+        log.append(i)
+        yield x
+    if ending == "fail":
+        raise exc
+
+
+class RunawayRead(Exception):
+    """the code under test read far beyond anything the case can need"""
+
+
+def _extras(k):
+    for i in range(k):
+        yield ("extra", i)
+    raise RunawayRead("read %d items past the point where the input was limited" % k)
+
+
+class _Timeout(BaseException):
+    pass
+
+
+def _alarm(_sig, _frm):
+    raise _Timeout("impl call exceeded its time budget")
+
+
+def _run_gen(gen, reg, out, bound=None):
+    """collect snapshots of the blocks; returns error kind or None"""
+    try:
+        for b in (gen if bound is None else it.islice(gen, bound)):
+            out.append(tagl(b, reg))
+    except Exception as e:
+        return err_kind(e)
+    return None
+
+
+def _is_stream(res, obs):
+    from audiolazy import Stream
+    if not isinstance(res, Stream):
+        obs["not_a_stream"] = type(res).__name__
+    return res
+
+
+def _impl_blocks(c):
+    from audiolazy import blocks, Stream, thub
+    SubStream, ChangeableStream, GainStream = _classes()
+    reg = {}
+    xs = [untag(x, reg) for x in case_xs(c)]
+    pristine = list(xs)
+    pad = untag(c["pad"], reg)
+    pt = c.get("ptype", "int")
+    size, hop = _param(c["size"], pt, "size"), _param(c["hop"], pt, "hop")
+    kw = dict(size=size, hop=hop, padval=pad)
+    route = c.get("route", "func")
+    out = []
+    obs = {"blocks": out}
+    n = len(xs)
+    bound = n + 4
+    if route == "func":
+        err = _run_gen(blocks(xs, **kw), reg, out)
+    elif route == "positional":
+        err = _run_gen(blocks(xs, size, hop, pad), reg, out)
+    elif route == "stream":
+        err = _run_gen(_is_stream(Stream(xs).blocks(**kw), obs), reg, out)
+    elif route == "substream":
+        err = _run_gen(_is_stream(SubStream(xs).blocks(**kw), obs), reg, out)
+    elif route == "chgstream":
+        err = _run_gen(ChangeableStream(xs).blocks(**kw), reg, out)
+    elif route == "hopnone":
+        err = _run_gen(blocks(xs, size=size, padval=pad), reg, out)
+    elif route == "stream_hopnone":
+        err = _run_gen(_is_stream(Stream(xs).blocks(size=size, padval=pad), obs), reg, out)
+    elif route == "defaultpad":
+        err = _run_gen(blocks(xs, size=size, hop=hop), reg, out)
+    elif route == "stream_defaultpad":
+        err = _run_gen(_is_stream(Stream(xs).blocks(size=size, hop=hop), obs), reg, out)
+    elif route == "reentrant":
+        # every pull of the outer generator's source runs a complete inner blocks() call with the same
+        # parameters (and one with its own) on other data: scratch state shared between calls would show
+        inner_out = []
+
+        def inner_run(i):
+            inner = [("in", i, q) for q in range(c["size"] + 1)]
+            got = [[(y[0], 0, y[2]) if type(y) is tuple else ("pad",) for y in b] for b in blocks(inner, **kw)]
+            list(blocks(inner, size=c["size"] + 1, hop=1, padval=None))
+            return got
+
+        def src():
+            for i, x in enumerate(xs):
+                inner_out.append(inner_run(i))
+                yield x
+        err = _run_gen(blocks(src(), **kw), reg, out)
+        alone = inner_run(0)          # the same inner call with nothing else alive
+        if alone[:1] != [[("in", 0, q) for q in range(c["size"])]] or any(g != alone for g in inner_out):
+            obs["inner_wrong"] = True
+    elif route == "iter":
+        err = _run_gen(blocks(iter(xs), size, hop, pad), reg, out)
+    elif route == "tuple":
+        err = _run_gen(blocks(tuple(xs), **kw), reg, out)
+    elif route == "deque":
+        err = _run_gen(blocks(collections.deque(xs), **kw), reg, out)
+    elif route == "genfunc":
+        err = _run_gen(blocks((x for x in xs), **kw), reg, out)
+    elif route == "gain":
+        err = _run_gen(GainStream(xs, c["gain"]).blocks(**kw), reg, out)
+    elif route in ("thub", "thub1"):
+        with warnings.catch_warnings():
+            warnings.simplefilter("ignore")
+            hub = thub(xs, 2 if route == "thub" else 1)
+            a = hub.blocks(**kw)
+            b = hub.blocks(**kw) if route == "thub" else iter(())
+            out2 = []
+            err = None
+            try:
+                for ba, bb in it.zip_longest(a, b):      # lock-step consumption of both branches
+                    if ba is not None:
+                        out.append(tagl(ba, reg))
+                    if bb is not None:
+                        out2.append(tagl(bb, reg))
+            except Exception as e:
+                err = err_kind(e)
+            if route == "thub":
+                obs["blocks2"] = out2
+    elif route == "chg_limit":
+        j = c["take"]
+        endless = it.chain(xs, _extras(n + 64))     # "endless": long enough, with a trip-wire at its end
+        cs = ChangeableStream(endless)
+        blks = iter(cs.blocks(**kw))
+        err = _run_gen(blks, reg, out, j)
+        if err is None and len(out) == j:
+            cs.limit(n - pulled(c["size"], c["hop"], j))     # the input ends after that many further items
+            err = _run_gen(blks, reg, out, bound)
+    elif route == "chg_append":
+        j, m = c["take"], c.get("first", n)
+        cs = ChangeableStream(xs[:m])
+        blks = iter(cs.blocks(**kw))
+        err = _run_gen(blks, reg, out, j)
+        if err is None and len(out) == j:
+            cs.append(xs[m:])
+            err = _run_gen(blks, reg, out, bound)
+    else:
+        raise ValueError("route " + route)
+    if err is not None:
+        obs["err"] = err
+    obs["arg_ok"] = len(xs) == len(pristine) and all(a is b for a, b in zip(xs, pristine))
+    return obs
+
+
+def _impl_trace(c):
+    from audiolazy import blocks, Stream
+    SubStream, ChangeableStream, _G = _classes()
+    reg = {}
+    big = "xs" not in c
+    xs = range(c["n"]) if big else [untag(x, reg) for x in c["xs"]]
+    pad = untag(c["pad"], reg)
+    exc = _make_exc(c.get("exc", "DeviceError"))
+    log = []
+    src = _source(xs, c["ending"], log, exc)
+    kw = dict(size=c["size"], hop=c["hop"], padval=pad)
+    route = c.get("route", "func")
+    events = []
+    obs = {"events": events, "raised": False, "pulled_at_construction": 0}
+    try:
+        if route == "func":
+            gen = blocks(src, **kw)
+        elif route == "stream":
+            gen = Stream(src).blocks(**kw)
+        elif route == "substream":
+            gen = SubStream(src).blocks(**kw)
+        else:
+            gen = ChangeableStream(src).blocks(**kw)
+        gen = iter(gen)
+        obs["pulled_at_construction"] = len(log)
+        for b in gen:
+            events.append([len(log), list(b) if big else tagl(b, reg)])
+    except Exception as e:
+        obs["raised"] = True
+        obs["exc"] = "same" if e is exc else "other:" + err_kind(e)
+        if "gen" not in locals() or not hasattr(gen, "__next__"):
+            obs["pulled_at_construction"] = max(len(log), 1)
+    return obs
+
+
+def _apply_edit(blk, op, reg):
+    if op[0] == "set":
+        blk[op[1]] = untag(op[2], reg)
+    elif op[0] == "rot":
+        blk.rotate(op[1])
+    else:
+        blk.reverse()
+
+
+def _impl_mut(c):
+    from audiolazy import blocks, Stream
+    reg = {}
+    xs = [untag(x, reg) for x in c["xs"]]
+    pad = untag(c["pad"], reg)
+    kw = dict(size=c["size"], hop=c["hop"], padval=pad)
+    gen = blocks(xs, **kw) if c.get("route", "func") == "func" else Stream(xs).blocks(**kw)
+    out = []
+    obs = {"blocks": out}
+    try:
+        for k, blk in enumerate(gen):
+            out.append(tagl(blk, reg))
+            if k < len(c["edits"]):
+                for op in c["edits"][k]:
+                    _apply_edit(blk, op, reg)
+    except Exception as e:
+        obs["err"] = err_kind(e)
+    return obs
+
+
+def _impl_live(c):
+    from audiolazy import blocks, Stream, ControlStream
+    vals = c["vals"]
+    n = c["n"]
+    kw = dict(size=c["size"], hop=c["hop"], padval=c["pad"])
+    kind = c.get("kind", "cell")
+    if kind == "control":
+        cs = ControlStream(vals[0])
+        cs.limit(n)
+        gen = cs.blocks(**kw)
+
+        def setv(v):
+            cs.value = v
+        enc = lambda b: list(b)
+    else:
+        cell = [vals[0]]
+
+        def src():
+            for i in range(n):
+                yield (i, cell[0])
+        gen = blocks(src(), **kw) if kind == "cell" else Stream(src()).blocks(**kw)
+
+        def setv(v):
+            cell[0] = v
+        enc = lambda b: [list(x) if isinstance(x, tuple) else x for x in b]
+    out = []
+    obs = {"blocks": out}
+    try:
+        for k, blk in enumerate(it.islice(gen, n + 4)):
+            out.append(enc(blk))
+            setv(vals[min(k + 1, len(vals) - 1)])
+    except Exception as e:
+        obs["err"] = err_kind(e)
+    return obs
+
+
+def _impl_zero_pad(c):
+    from audiolazy import zero_pad, Stream
+    reg = {}
+    big = "xs" not in c
+    xs = list(range(c["n"])) if big else [untag(x, reg) for x in c["xs"]]
+    zero = untag(c["zero"], reg)
+    pt = c.get("ptype", "int")
+    left, right = _param(c["left"], pt, "left"), _param(c["right"], pt, "right")
+    if c.get("defaults"):
+        # documented defaults: left=0, right=0, zero=0. (the case carries exactly these values)
+        return {"out": tagl(zero_pad(iter(xs)), reg) if c["defaults"] == "all" else
+                tagl(zero_pad(iter(xs), left, right), reg)}
+    if not c.get("observe"):
+        return {"out": tagl(zero_pad(iter(xs), left=left, right=right, zero=zero), reg)}
+    exc = DeviceError("source failed")
+    log = []
+    route = c.get("route", "iter")
+    src = _source(xs, c.get("ending", "stop"), log, exc)
+    if route == "stream":
+        src = Stream(src)
+    elif route == "list" and c.get("ending", "stop") == "stop":
+        src = xs
+        log = None
+    out, reads = [], []
+    obs = {"out": out, "reads": reads, "raised": False}
+    try:
+        for x in zero_pad(src, left=left, right=right, zero=zero):
+            out.append(tag(x, reg))
+            reads.append(len(log) if log is not None else -1)
+    except Exception as e:
+        if e is exc:
+            obs["raised"] = True
+        else:
+            obs["err"] = err_kind(e)
+    if log is None:
+        obs["reads"] = None
+    return obs
+
+
+def _impl_conc(c):
+    from audiolazy import blocks, Stream
+    reg = {}
+    shared_xs = None
+    pads = {}
+    gens, outs, args = [], [], []
+    for s in c["subs"]:
+        if s.get("share"):
+            if shared_xs is None:
+                shared_xs = [untag(x, reg) for x in s["xs"]]
+            xs = shared_xs
+        else:
+            xs = [untag(x, reg) for x in s["xs"]]
+        pk = json.dumps(s["pad"])
+        if pk not in pads:
+            pads[pk] = untag(s["pad"], reg)
+        pt = s.get("ptype", "int")
+        kw = dict(size=_param(s["size"], pt, "size"), hop=_param(s["hop"], pt, "hop"), padval=pads[pk])
+        args.append((xs, list(xs)))
+        r = s.get("route", "func")
+        mk = {"func": lambda xs=xs, kw=kw: blocks(xs, **kw),
+              "stream": lambda xs=xs, kw=kw: iter(Stream(xs).blocks(**kw)),
+              "iter": lambda xs=xs, kw=kw: blocks(iter(xs), **kw)}[r]
+        gens.append(mk)
+        outs.append([])
+    order = c.get("order", "rr")
+    errs = [None] * len(gens)
+
+    def drain(i, out):
+        got = []
+        try:
+            for b in gens[i]():
+                got.append(tagl(b, reg))
+        except Exception as e:
+            errs[i] = err_kind(e)
+        if out is not None:
+            out.extend(got)
+        return got
+
+    if order == "seq":
+        for i, out in enumerate(outs):
+            drain(i, out)
+    elif order == "rr":
+        live = []
+        for i, (mk, out) in enumerate(zip(gens, outs)):
+            try:
+                live.append((i, mk(), out))
+            except Exception as e:
+                errs[i] = err_kind(e)
+        while live:
+            nxt = []
+            for i, g, out in live:
+                try:
+                    out.append(tagl(next(g), reg))
+                    nxt.append((i, g, out))
+                except StopIteration:
+                    pass
+                except Exception as e:
+                    errs[i] = err_kind(e)
+            live = nxt
+    else:   # nest: between two blocks of the first generator the others run completely (fresh each time)
+        first = True
+        try:
+            for b in gens[0]():
+                outs[0].append(tagl(b, reg))
+                for i in range(1, len(gens)):
+                    got = drain(i, outs[i] if first else None)
+                    if not first and got != outs[i]:
+                        outs[i].append({"changed-on-rerun": got})
+                first = False
+        except Exception as e:
+            errs[0] = err_kind(e)
+        if first:
+            for i in range(1, len(gens)):
+                drain(i, outs[i])
+    subs = []
+    for o, e in zip(outs, errs):
+        d = {"blocks": o}
+        if e:
+            d["err"] = e
+        subs.append(d)
+    return {"subs": subs,
+            "arg_ok": all(len(a) == len(p) and all(x is y for x, y in zip(a, p)) for a, p in args)}
+
+
+def _guarded(c, seconds=30):
+    import signal
+    old = signal.signal(signal.SIGALRM, _alarm)
+    signal.setitimer(signal.ITIMER_REAL, seconds)
+    try:
+        return _impl(c)
+    except _Timeout:
+        return {"err": "OTHER:Timeout"}
+    finally:
+        signal.setitimer(signal.ITIMER_REAL, 0)
+        signal.signal(signal.SIGALRM, old)
+
+
+class _Zygote(object):
+    """A child forked BEFORE this process made its first call into the code under test: it has the
+    library imported and untouched.  Every request (a list of cases to run one after the other) is run
+    in a fresh fork of it, so the result cannot depend on anything run earlier anywhere else.  Used for
+    every history case (`conc`, `hist`), for re-checking a disagreement of a plain case alone, and for the
+    search of the earlier calls a state-dependent disagreement needs."""
+
+    def __init__(self):
+        self.w = self.r = None
+
+    def ensure(self):
+        import os
+        if self.w is not None:
+            return
+        import audiolazy  # noqa: F401  (import only; nothing is called in this process before the fork)
+        r1, w1 = os.pipe()
+        r2, w2 = os.pipe()
+        pid = os.fork()
+        if pid == 0:
+            try:
+                os.close(w1)
+                os.close(r2)
+                self._serve(os.fdopen(r1, "rb"), os.fdopen(w2, "wb"))
+            finally:
+                os._exit(0)
+        os.close(r1)
+        os.close(w2)
+        self.w, self.r = os.fdopen(w1, "wb"), os.fdopen(r2, "rb")
+
+    @staticmethod
+    def _serve(fin, fout):
+        import os
+        import resource
+        while True:
+            line = fin.readline()
+            if not line:
+                return
+            cases = json.loads(line)
+            rr, ww = os.pipe()
+            p = os.fork()
+            if p == 0:
+                try:
+                    os.close(rr)
+                    try:
+                        resource.setrlimit(resource.RLIMIT_AS, (8 << 30, 8 << 30))
+                    except (ValueError, OSError):
+                        pass
+                    try:
+                        outs = [_guarded(c, 60) for c in cases]
+                    except BaseException as e:      # MemoryError, ...
+                        outs = [{"err": "CHILD:" + type(e).__name__}] * len(cases)
+                    with os.fdopen(ww, "wb") as f:
+                        f.write(json.dumps(outs).encode())
+                finally:
+                    os._exit(0)
+            os.close(ww)
+            with os.fdopen(rr, "rb") as f:
+                data = f.read()
+            os.waitpid(p, 0)
+            if not data:
+                data = json.dumps([{"err": "CHILD:died"}] * len(cases)).encode()
+            fout.write(data + b"\n")
+            fout.flush()
+
+    def run(self, cases):
+        """observations of the cases run one after the other in one fresh process"""
+        self.ensure()
+        self.w.write(json.dumps(cases).encode() + b"\n")
+        self.w.flush()
+        return json.loads(self.r.readline())
+
+
+_ZYG = _Zygote()
+_HISTORY = []        # plain cases run in THIS process, in order (a disagreement may depend on them)
+_CONTAM = {}         # key of a state-dependent disagreement -> (position in _HISTORY, Lean payload)
 
 
 def impl(c):
-    from audiolazy import blocks, zero_pad, Stream
+    _ZYG.ensure()
+    if c["entry"] in ("conc", "hist"):
+        return _ZYG.run([c])[0]
+    obs = _guarded(c)
+    obs["_pos"] = len(_HISTORY)
+    _HISTORY.append(c)
+    return obs
+
+
+def _impl(c):
+    e = c["entry"]
     try:
-        if c["entry"] == "blocks":
-            xs = c["xs"]
-            route = c.get("route", "func")
-            if route == "stream":
-                gen = Stream(xs).blocks(size=c["size"], hop=c["hop"], padval=c["pad"])
-            elif route == "hopnone":
-                gen = blocks(xs, size=c["size"], padval=c["pad"])
-            elif route == "iter":
-                gen = blocks(iter(xs), c["size"], c["hop"], c["pad"])
-            else:
-                gen = blocks(xs, size=c["size"], hop=c["hop"], padval=c["pad"])
-            return {"blocks": [list(b) for b in gen]}   # snapshot at yield time
-        else:
-            return {"out": list(zero_pad(iter(c["xs"]), left=c["left"], right=c["right"], zero=c["zero"]))}
-    except Exception as e:
-        return {"err": err_kind(e)}
+        if e == "blocks":
+            return _impl_blocks(c)
+        if e == "trace":
+            return _impl_trace(c)
+        if e == "mut":
+            return _impl_mut(c)
+        if e == "live":
+            return _impl_live(c)
+        if e == "conc":
+            return _impl_conc(c)
+        if e == "hist":
+            return {"steps": [_impl(st) for st in c["steps"]]}
+        return _impl_zero_pad(c)
+    except Exception as ex:
+        return {"err": err_kind(ex)}
 
 
-def request(c):
-    r = dict(c)
-    r.pop("route", None)
+# ----------------------------------------------------------------------------
+# Lean side
+# ----------------------------------------------------------------------------
+def _req1(c):
+    r = {k: c[k] for k in ("entry", "size", "hop", "pad", "xs", "n", "ending", "edits", "vals",
+                           "left", "right", "zero", "fast") if k in c}
+    if c["entry"] == "blocks" and c.get("route") == "gain":
+        r["xs"] = [x * c["gain"] for x in c["xs"]]
+    if c["entry"] == "live":
+        r["pair"] = c.get("kind", "cell") != "control"
     return r
 
 
-def compare(c, io, drv):
-    out = []
+def request(c):
+    if c["entry"] == "conc":
+        return {"entry": "conc", "subs": [_req1(s) for s in c["subs"]]}
+    if c["entry"] == "hist":
+        return {"entry": "conc", "subs": [_req1(s) for s in c["steps"]]}
+    return _req1(c)
+
+
+def _cmp_blocks(c, io, drv, out, where=""):
+    pt = c.get("ptype", "int")
+    got = io.get("blocks")
     if "err" in io:
-        return [("model", "impl raised " + io["err"]), ("spec", "impl raised " + io["err"])]
-    if c["entry"] == "blocks":
+        nf = len(drv["reads"])
+        if pt in ("hopfloat", "hopfrac") and io["err"] == "TypeError" and got == drv["closed"][:nf] \
+                and len(drv["closed"]) == nf + 1:
+            return   # int-valued non-int hop refused when the padded block is due: outside the quantifier
+        if pt == "sizefloat" and io["err"] == "TypeError" and not got:
+            return   # deque(maxlen=float) refused
+        out.append(("model", where + "impl raised " + io["err"]))
+        out.append(("spec", where + "impl raised %s after blocks %r" % (io["err"], got)))
+        return
+    if got != drv["model"]:
+        out.append(("model", where + "blocks differ from model: impl=%r model=%r" % (got, drv["model"])))
+    if got != drv["closed"] or got != drv["spec"]:
+        out.append(("spec", where + "blocks differ from spec: impl=%r spec=%r" % (got, drv["closed"])))
+    if "blocks2" in io and io["blocks2"] != drv["closed"]:
+        out.append(("spec", where + "second thub branch differs from spec: impl=%r spec=%r" % (io["blocks2"], drv["closed"])))
+    if io.get("arg_ok") is False:
+        out.append(("spec", where + "the input sequence object was changed by the call"))
+    if io.get("not_a_stream"):
+        out.append(("spec", where + "Stream.blocks returned a %s, not a Stream" % io["not_a_stream"]))
+    if io.get("inner_wrong"):
+        out.append(("spec", where + "an inner blocks() call made while the outer generator was pulling its source gave wrong blocks"))
+
+
+def _ckey(c):
+    return json.dumps(c, sort_keys=True)
+
+
+def compare(c, io, drv):
+    """A disagreement is reported as it is only when the case disagrees ALONE in a fresh process
+    (so that the replay is self-contained).  A plain case that agrees alone but disagreed here depends on
+    calls made earlier in this process: it is reported as `state-between-calls` and `shrink` turns it
+    into the explicit history (the earlier calls it needs + the case).  A history whose steps all
+    agree when run alone is `state-between-calls` too."""
+    pos = io.pop("_pos", None) if isinstance(io, dict) else None
+    out = _problems(c, io, drv)
+    if not out:
+        return out
+    e = c["entry"]
+    if e == "hist":
+        alone = [_ZYG.run([{"entry": "hist", "steps": [st]}])[0] for st in c["steps"]]   # one fresh process each
+        if all("steps" in o and not _problems(st, o["steps"][0], d) for st, o, d in zip(c["steps"], alone, drv["subs"])):
+            io["_alone_ok"] = True
+        return out
+    if e == "conc":
+        alone = [_ZYG.run([dict(c, subs=[sb])])[0] for sb in c["subs"]]
+        if all(not _problems(dict(c, subs=[sb]), o, {"subs": [d]}) for sb, o, d in zip(c["subs"], alone, drv["subs"])):
+            io["_alone_ok"] = True
+        return out
+    io2 = _ZYG.run([c])[0]
+    out2 = _problems(c, io2, drv)
+    if out2:
+        io.clear()
+        io.update(io2)
+        return out2
+    io["_isolated_ok"] = True
+    _CONTAM[_ckey(c)] = (pos if pos is not None else len(_HISTORY), drv)
+    return [("spec", "agrees when run alone in a fresh process but disagreed after the calls made earlier in this "
+                     "process (state kept between calls): " + "; ".join(d for _k, d in out)[:400])]
+
+
+def _problems(c, io, drv):
+    out = []
+    e = c["entry"]
+    if e == "hist":
+        if "steps" not in io:
+            return [("model", "impl raised " + io.get("err", "?")), ("spec", "impl raised " + io.get("err", "?"))]
+        for i, (st, o, d) in enumerate(zip(c["steps"], io["steps"], drv["subs"])):
+            for k, msg in _problems(st, o, d):
+                out.append((k, "call %d of %d (%s): %s" % (i + 1, len(c["steps"]), st["entry"], msg)))
+        return out
+    if e == "blocks":
+        _cmp_blocks(c, io, drv, out)
+    elif e == "conc":
+        if "err" in io and "subs" not in io:
+            return [("model", "impl raised " + io["err"]), ("spec", "impl raised " + io["err"])]
+        if "err" in io:
+            out.append(("spec", "interleaved generators: impl raised " + io["err"]))
+        for i, (s, o, d) in enumerate(zip(c["subs"], io["subs"], drv["subs"])):
+            _cmp_blocks(s, o, d, out, "generator %d of %d (%s): " % (i, len(c["subs"]), c.get("order")))
+        if io.get("arg_ok") is False:
+            out.append(("spec", "a shared input sequence object was changed"))
+    elif e == "trace":
+        if "err" in io:
+            return [("model", "impl raised " + io["err"]), ("spec", "impl raised " + io["err"])]
+        if drv["model"] is not None and (io["events"] != drv["model"] or io["raised"] != drv["raised"]):
+            out.append(("model", "trace differs from model: impl=%s model=%s" % (_ev(io["events"], io["raised"]), _ev(drv["model"], drv["raised"]))))
+        if io["events"] != drv["spec"] or io["raised"] != drv["spec_raised"]:
+            out.append(("spec", "(items pulled, block) events of a source that %ss after %d items differ: impl=%s spec=%s"
+                        % (c["ending"], case_len(c), _ev(io["events"], io["raised"]), _ev(drv["spec"], drv["spec_raised"]))))
+        elif io["raised"] and io.get("exc") != "same":
+            out.append(("spec", "the source's exception did not come out unchanged: " + str(io.get("exc"))))
+        if io.get("pulled_at_construction"):
+            out.append(("spec", "the source was read (%d items, or its failure came out) when the generator was only "
+                        "constructed: block 0 is produced at the moment it is asked for, from the items pulled then"
+                        % io["pulled_at_construction"]))
+    elif e in ("mut", "live"):
+        if "err" in io:
+            return [("model", "impl raised " + io["err"]), ("spec", "impl raised %s after %r" % (io["err"], io.get("blocks")))]
         if io["blocks"] != drv["model"]:
-            out.append(("model", "blocks differ from model: impl=%r model=%r" % (io["blocks"], drv["model"])))
-        if io["blocks"] != drv["closed"] or io["blocks"] != drv["spec"]:
-            out.append(("spec", "blocks differ from spec: impl=%r spec=%r" % (io["blocks"], drv["closed"])))
+            out.append(("model", "%s: blocks differ from model: impl=%r model=%r" % (e, io["blocks"], drv["model"])))
+        if io["blocks"] != drv["spec"]:
+            out.append(("spec", "%s: blocks differ from spec: impl=%r spec=%r" % (e, io["blocks"], drv["spec"])))
     else:
-        if io["out"] != drv["model"]:
-            out.append(("model", "zero_pad differs from model"))
-        if io["out"] != drv["spec"]:
-            out.append(("spec", "zero_pad differs from spec"))
+        if "err" in io:
+            if c.get("ptype") == "float" and io["err"] == "TypeError" and not io.get("out"):
+                return []    # xrange(float) refused: outside the quantifier
+            return [("model", "impl raised " + io["err"]), ("spec", "impl raised " + io["err"])]
+        if not c.get("observe"):
+            if io["out"] != drv["model"]:
+                out.append(("model", "zero_pad differs from model"))
+            if io["out"] != drv["spec"]:
+                out.append(("spec", "zero_pad differs from spec"))
+        else:
+            rd = io["reads"]
+            if io["out"] != drv["trace"] or io["raised"] != drv["raised"] or (rd is not None and rd != drv["trace_reads"]):
+                out.append(("model", "zero_pad trace differs from model: impl=%r reads=%r raised=%r" % (io["out"], rd, io["raised"])))
+            if io["out"] != drv["spec_trace"] or (rd is not None and rd != drv["spec_reads"]) or \
+                    io["raised"] != (c.get("ending", "stop") == "fail"):
+                out.append(("spec", "zero_pad over a source that %ss after %d items: impl=%r reads=%r raised=%r, spec=%r reads=%r"
+                            % (c.get("ending", "stop"), case_len(c), io["out"], rd, io["raised"], drv["spec_trace"], drv["spec_reads"])))
+            if c.get("ending", "stop") == "stop" and drv["spec_trace"] != drv["spec"]:
+                out.append(("model", "driver: trace of a finished source is not zero_pad"))
     return out
 
 
+def _ev(events, raised):
+    s = json.dumps(events)
+    if len(s) > 220:
+        s = s[:100] + " ... " + s[-100:]
+    return s + (" then the exception" if raised else " then the end")
+
+
 def nontrivial(c, io):
-    return bool(io.get("blocks") or io.get("out"))
+    if c["entry"] == "hist":
+        return any(nontrivial(st, o) for st, o in zip(c["steps"], io.get("steps", [])))
+    if c["entry"] == "conc":
+        return any(o.get("blocks") for o in io.get("subs", []))
+    return bool(io.get("blocks") or io.get("out") or io.get("events"))
+
+
+def _bucket(n):
+    for b in (0, 1, 4, 16, 64, 256, 1024, 4096):
+        if n <= b:
+            return "<=%d" % b
+    return ">4096"
 
 
 def tally(eng, c, io):
-    if c["entry"] == "blocks":
-        rel = "hop<size" if c["hop"] < c["size"] else ("hop=size" if c["hop"] == c["size"] else "hop>size")
-        eng.count("hop_vs_size", rel)
-        eng.count("route", c.get("route", "func"))
-        nb = len(io.get("blocks", []))
-        eng.count("n_blocks", min(nb, 10))
-        if nb:
-            eng.count("last_block_padded", c["pad"] in io["blocks"][-1] and len(c["xs"]) > 0 and
-                      (len(c["xs"]) < c["size"] or (len(c["xs"]) - c["size"]) % c["hop"] != 0))
-        eng.count("len", min(len(c["xs"]) // 10 * 10, 100))
-    else:
-        eng.count("entry", "zero_pad")
+    e = c["entry"]
+    eng.count("entry", e)
     if "err" in io:
         eng.count("impl_error", io["err"])
+    if e == "hist":
+        st = c["steps"]
+        eng.count("hist_calls", len(st))
+        eng.count("hist_entries", "+".join(sorted({x["entry"] for x in st})))
+        sh = [(x["size"], x["hop"]) for x in st if "size" in x]
+        eng.count("hist_shared", "same (size,hop) twice" if len(set(sh)) < len(sh) else
+                  "same size twice" if len({a for a, _b in sh}) < len(sh) else "no shared parameter")
+        pts = {x.get("ptype", "int") for x in st if x["entry"] == "blocks"}
+        eng.count("hist_param_types", "+".join(sorted(pts)) or "-")
+        return
+    if e == "conc":
+        eng.count("conc_order", c.get("order"))
+        eng.count("conc_generators", len(c["subs"]))
+        eng.count("conc_shared_xs", sum(1 for s in c["subs"] if s.get("share")))
+        eng.count("conc_equal_params", len({(s["size"], s["hop"]) for s in c["subs"]}) < len(c["subs"]))
+        return
+    if e == "zero_pad":
+        eng.count("zp_ending", c.get("ending", "stop") if c.get("observe") else "unobserved")
+        eng.count("zp_ptype", c.get("ptype", "int"))
+        eng.count("zp_left", _bucket(c["left"]))
+        eng.count("zp_right", _bucket(c["right"]))
+        return
+    size, hop, n = c["size"], c["hop"], case_len(c)
+    rel = "hop<size" if hop < size else ("hop=size" if hop == size else "hop>size")
+    eng.count("hop_vs_size", rel)
+    eng.count(e + "_hop_vs_size", rel)
+    eng.count("size", _bucket(size))
+    eng.count("hop", _bucket(hop))
+    eng.count("len", _bucket(n))
+    nf = nfull(size, hop, n)
+    if e == "blocks":
+        eng.count("route", c.get("route", "func"))
+        eng.count("ptype", c.get("ptype", "int"))
+        nb = len(io.get("blocks", []))
+        eng.count("n_blocks", min(nb, 10))
+        eng.count("last_block_padded", nb > nf)
+        if c.get("route") in ("chg_limit", "chg_append"):
+            eng.count("hist_blocks_before_change", min(c["take"], 5))
+        if c["xs"] and isinstance(c["xs"][0], dict) and "o" in c["xs"][0]:
+            eng.count("items", "identity-tracked")
+    elif e == "trace":
+        eng.count("trace_ending", c["ending"])
+        eng.count("trace_route", c.get("route", "func"))
+        # where the source ends relative to the block boundaries
+        at = "short" if n < size else ("right-after-a-block" if (n - size) % hop == 0 else "inside-a-block")
+        eng.count("trace_%s_position" % c["ending"], at)
+        eng.count("trace_n_events", min(len(io.get("events", [])), 10))
+    elif e == "mut":
+        eng.count("mut_route", c.get("route", "func"))
+        ne = sum(len(ops) for ops in c["edits"][:nf])
+        eng.count("mut_effective_edit_ops", min(ne, 6))
+        for ops in c["edits"][:nf]:
+            for op in ops:
+                eng.count("mut_op", op[0])
+    elif e == "live":
+        eng.count("live_kind", c.get("kind", "cell"))
+        eng.count("live_phases_seen", min(min(nf, len(c["vals"]) - 1), 6))
+
+
+# ----------------------------------------------------------------------------
+# shrinking / search / signatures
+# ----------------------------------------------------------------------------
+def _steps(v):
+    """v - 2^k for every 2^k <= v (largest jump first): greedy descent reaches the smallest failing value
+    in O(log^2) evaluations instead of a walk by -1"""
+    k = 1
+    while k * 2 <= v:
+        k *= 2
+    while k >= 1:
+        yield v - k
+        k //= 2
+
+
+def _pow2ish(v):
+    """2^k + 1 or 2^k (k >= 6): one step down crosses / reaches the power of two"""
+    return v > 64 and ((v - 1) & (v - 2) == 0 or v & (v - 1) == 0)
+
+
+def _shrink1(c):
+    e = c["entry"]
+    if e == "zero_pad":
+        if "xs" in c and c["xs"]:
+            yield dict(c, xs=c["xs"][:-1])
+        if "n" in c and c["n"]:
+            yield dict(c, n=c["n"] // 2)
+            yield dict(c, n=c["n"] - 1)
+        for k in ("left", "right"):
+            if c[k]:
+                yield dict(c, **{k: c[k] // 2})
+                if c[k] <= 64:
+                    yield dict(c, **{k: c[k] - 1})
+        if c.get("ptype", "int") != "int":
+            yield dict(c, ptype="int")
+        if c.get("route", "iter") != "iter":
+            yield dict(c, route="iter")
+        return
+    n = case_len(c)
+    if "xs" in c:
+        xs = c["xs"]
+        if xs:
+            yield dict(c, xs=xs[:-1])
+            if c.get("route") != "gain":
+                plain = list(range(len(xs)))
+                if xs != plain:
+                    yield dict(c, xs=plain)
+        if e == "blocks" and c.get("route") == "chg_append" and c.get("first", n) > 0:
+            yield dict(c, first=c["first"] - 1)
+            if xs:
+                yield dict(c, xs=xs[:-1], first=min(c["first"], len(xs) - 1))
+    elif n:
+        for v in (c["size"], c["size"] + c["hop"], c["size"] - 1):     # the boundaries of the first blocks
+            if 0 <= v < n:
+                yield dict(c, n=v)
+        for v in _steps(n):
+            yield dict(c, n=v)
+        if e == "trace" and n <= 40:
+            d = dict(c, xs=list(range(n)))
+            d.pop("n")
+            yield d
+    # values above 64 only halve (or drop to the next power of two): every step of a large case costs
+    # O(size * len) on the model side, a walk by -1 would take minutes
+    if 1 < c["size"] <= 64 or _pow2ish(c["size"]):
+        d = dict(c, size=c["size"] - 1)
+        if e == "mut":
+            d["edits"] = [[op for op in ops if op[0] != "set" or op[1] < d["size"]] for ops in c["edits"]]
+        yield d
+    if c["size"] > 8:
+        for v in _steps(c["size"]):
+            if 1 <= v < c["size"] - 1:
+                yield dict(c, size=v, **({"edits": []} if e == "mut" else {}))
+    if 1 < c["hop"] <= 64 or _pow2ish(c["hop"]):
+        yield dict(c, hop=c["hop"] - 1)
+    if c["hop"] > 8:
+        for v in _steps(c["hop"]):
+            if 1 <= v < c["hop"] - 1:
+                yield dict(c, hop=v)
+        if c["hop"] > c["size"] + 1:
+            yield dict(c, hop=c["size"] + 1)
+    if c.get("pad") not in (None, "P"):
+        yield dict(c, pad=None)
+    if e == "blocks":
+        r = c.get("route", "func")
+        if r in ("chg_limit", "chg_append") and c["take"] > 0:
+            yield dict(c, take=c["take"] - 1)
+        if r not in ("func", "gain", "chg_limit", "chg_append", "thub"):
+            yield dict(c, route="func")
+            if r == "stream_defaultpad":
+                yield dict(c, route="defaultpad")
+        elif r == "thub":
+            yield dict(c, route="thub1")
+        elif r != "func":
+            d = dict(c, route="chgstream" if r.startswith("chg") else "stream")
+            for k in ("take", "first", "gain"):
+                d.pop(k, None)
+            if r != "gain":
+                yield d
+        if c.get("ptype", "int") != "int":
+            yield dict(c, ptype="int")
+    elif e == "trace":
+        if c.get("route", "func") != "func":
+            yield dict(c, route="func")
+        if c.get("exc", "DeviceError") != "DeviceError":
+            yield dict(c, exc="DeviceError")
+    elif e == "mut":
+        eds = c["edits"]
+        if eds:
+            yield dict(c, edits=eds[:-1])
+        for i, ops in enumerate(eds):
+            for j in range(len(ops)):
+                yield dict(c, edits=eds[:i] + [ops[:j] + ops[j + 1:]] + eds[i + 1:])
+            for j, op in enumerate(ops):
+                if op[0] == "set" and op[2] != "X":
+                    yield dict(c, edits=eds[:i] + [ops[:j] + [["set", op[1], "X"]] + ops[j + 1:]] + eds[i + 1:])
+        if c.get("route", "func") != "func":
+            yield dict(c, route="func")
+    elif e == "live":
+        if len(c["vals"]) > 1:
+            yield dict(c, vals=c["vals"][:-1])
+        plain = ["v%d" % i for i in range(len(c["vals"]))]
+        if c["vals"] != plain:
+            yield dict(c, vals=plain)
+        if c.get("kind") == "cellstream":
+            yield dict(c, kind="cell")
+
+
+def _cheap(d):
+    """output volume of a candidate (blocks x size) stays transportable"""
+    if "size" not in d:
+        return True
+    return (nfull(d["size"], d["hop"], case_len(d)) + 1) * d["size"] <= 300000
+
+
+def _needs(c, pos, drv):
+    """the earlier calls of this process (a short sub-list of _HISTORY[:pos]) after which `c` disagrees
+    when everything is run in a fresh process"""
+    hist = [h for h in _HISTORY[:pos]]
+
+    def bad(pre):
+        o = _ZYG.run([{"entry": "hist", "steps": pre + [c]}])[0]
+        return "steps" in o and bool(_problems(c, o["steps"][-1], drv))
+    if not bad(hist):
+        return None
+    lo, hi = 0, len(hist)            # smallest prefix after which c disagrees (state, once set, usually stays)
+    while hi - lo > 1:
+        mid = (lo + hi) // 2
+        if bad(hist[:mid]):
+            hi = mid
+        else:
+            lo = mid
+    if bad(hist[hi - 1:hi]):
+        return hist[hi - 1:hi]
+    pre = hist[:hi]
+    chunk = max(1, len(pre) // 2)
+    tests = 0
+    while chunk >= 1 and tests < 80:
+        i = 0
+        while i < len(pre) - 1 and tests < 80:
+            cand = pre[:i] + pre[i + chunk:] if i + chunk < len(pre) else pre[:i] + pre[-1:]
+            tests += 1
+            if len(cand) < len(pre) and bad(cand):
+                pre = cand
+            else:
+                i += chunk
+        chunk //= 2
+    return pre
 
 
 def shrink(c):
-    if c["entry"] != "blocks":
+    k = _ckey(c)
+    if k in _CONTAM:
+        pos, drv = _CONTAM[k]
+        pre = _needs(c, pos, drv)
+        if pre is not None and len(pre) <= 12:
+            yield {"entry": "hist", "steps": pre + [c]}
         return
-    xs = c["xs"]
-    if xs:
-        yield dict(c, xs=xs[:-1])
-        yield dict(c, xs=list(range(len(xs))))
-    if c["size"] > 1:
-        yield dict(c, size=c["size"] - 1)
-    if c["hop"] > 1:
-        yield dict(c, hop=c["hop"] - 1)
-    if c.get("route") != "func":
-        yield dict(c, route="func")
+    if c["entry"] == "hist":
+        st = c["steps"]
+        for i in range(len(st)):
+            if len(st) > 1:
+                yield dict(c, steps=st[:i] + st[i + 1:])
+        # a parameter shared by several calls goes down in all of them together
+        for k in ("size", "hop"):
+            for v in sorted({x[k] for x in st if k in x}):
+                if v > 1 and sum(1 for x in st if x.get(k) == v) > 1:
+                    new = []
+                    for x in st:
+                        if x.get(k) == v:
+                            x = dict(x, **{k: v - 1})
+                            if x["entry"] == "mut":
+                                x["edits"] = [[op for op in ops if op[0] != "set" or op[1] < x["size"]] for ops in x["edits"]]
+                        new.append(x)
+                    if all(valid(x) for x in new):
+                        yield dict(c, steps=new)
+        for i in range(len(st)):
+            for d in _shrink1(st[i]):
+                if valid(d) and _cheap(d):
+                    d.pop("fast", None)
+                    yield dict(c, steps=st[:i] + [d] + st[i + 1:])
+        return
+    if c["entry"] == "trace" and c["size"] * case_len(c) > 10 ** 6:
+        # large case: candidates are compared with the Lean spec only (see the driver's "fast")
+        for d in _shrink1(c):
+            if valid(d) and _cheap(d):
+                yield dict(d, fast=True)
+        return
+    if c["entry"] == "conc":
+        subs = c["subs"]
+        if len(subs) == 1:
+            # a single generator: the plain case has the smaller description
+            yield {k: v for k, v in subs[0].items() if k != "share"}
+        for i in range(len(subs)):
+            if len(subs) > 1:
+                yield dict(c, subs=subs[:i] + subs[i + 1:])
+            for s in _shrink1(subs[i]):
+                if valid(s):
+                    if subs[i].get("share") and "xs" in s and s["xs"] != subs[i]["xs"]:
+                        s = dict(s, share=False)
+                    yield dict(c, subs=subs[:i] + [s] + subs[i + 1:])
+        if c.get("order") != "rr":
+            yield dict(c, order="rr")
+        return
+    for d in _shrink1(c):
+        if valid(d) and _cheap(d):
+            d.pop("fast", None)
+            yield d
 
 
 def neighbours(c):
-    if c["entry"] != "blocks":
+    if c["entry"] not in ("blocks", "trace", "mut", "live"):
         return
     for ds in (-1, 0, 1):
         for dh in (-1, 0, 1):
             for dn in (-1, 0, 1, 2):
-                s, h, n = c["size"] + ds, c["hop"] + dh, len(c["xs"]) + dn
+                s, h, n = c["size"] + ds, c["hop"] + dh, case_len(c) + dn
                 if s >= 1 and h >= 1 and n >= 0:
-                    yield dict(c, size=s, hop=h, xs=list(range(n)))
+                    d = dict(c, size=s, hop=h)
+                    if "xs" in c and c.get("route") != "gain":
+                        d["xs"] = list(range(n))
+                    elif "n" in c:
+                        d["n"] = n
+                    if c["entry"] == "mut":
+                        d["edits"] = [[op for op in ops if op[0] != "set" or op[1] < s] for ops in c["edits"]]
+                    if valid(d):
+                        yield d
 
 
 def classify(c, io, drv):
+    e = c["entry"]
+    if io.get("_isolated_ok") or io.get("_alone_ok"):
+        return "state-between-calls"
+    if e == "hist":
+        for st, o, d in zip(c["steps"], io.get("steps", []), drv.get("subs", [])):
+            if _problems(st, o, d):
+                return classify(st, o, d)         # a call that is wrong on its own: its own signature
+        return "hist:" + io.get("err", "?")
+    if e == "blocks":
+        r = c.get("route", "func")
+        pt = c.get("ptype", "int")
+        fam = r if r in ("gain", "chg_limit", "chg_append", "thub") else "plain"
+        base = "blocks[%s%s]:" % (fam, "" if pt in ("int", "intsub", "bool") else "," + pt)
+        if "err" in io:
+            return base + io["err"]
+        if io.get("arg_ok") is False and io.get("blocks") == drv.get("closed"):
+            return base + "argument-changed"
+        return base + "content"
+    if e == "trace":
+        if "err" in io:
+            return "trace:" + io["err"]
+        if io.get("pulled_at_construction"):
+            return "trace:%s:read-at-construction" % c["ending"]
+        if io["raised"] != drv["spec_raised"]:
+            return "trace:%s:%s" % (c["ending"], "exception-swallowed" if drv["spec_raised"] else "unexpected-exception")
+        if [b for _n, b in io["events"]] == [b for _n, b in drv["spec"]]:
+            if io["events"] != drv["spec"]:
+                return "trace:%s:read-count" % c["ending"]
+            return "trace:%s:exception-object" % c["ending"]
+        return "trace:%s:blocks" % c["ending"]
+    if e in ("mut", "live"):
+        if "err" in io:
+            return e + ":" + io["err"]
+        if e == "mut" and io["blocks"] == drv.get("plain"):
+            return "mut:edits-not-visible"
+        return e + ":content"
+    if e == "conc":
+        if len(c["subs"]) == 1 and "subs" in io and "subs" in drv:
+            return classify(c["subs"][0], io["subs"][0], drv["subs"][0])    # one generator: its own signature
+        errs = sorted({o["err"] for o in io.get("subs", []) if "err" in o})
+        if "err" in io or errs:
+            return "conc:" + io.get("err", ",".join(errs))
+        return "conc:content"
     if "err" in io:
-        return "blocks:" + io["err"]
-    return "blocks-content"
+        return "zero_pad:" + io["err"]
+    if c.get("observe"):
+        return "zero_pad:trace:" + c.get("ending", "stop")
+    return "zero_pad:content"
